@@ -62,8 +62,22 @@ static void op_name(int i, char *b, size_t n)
     if (o->k < NK_SLOT) snprintf(b, n, "p%d: %s", o->slot, KN[o->k]);
     else snprintf(b, n, "%s", o->k == K_FREE_UNKNOWN ? "FREE(untracked block)" : (o->k == K_REALLOC_UNKNOWN ? "REALLOC(untracked block,8)" : (o->k == K_FREE_DEAD ? "FREE(already freed pointer)" : (o->k == K_REALLOC_DEAD ? "REALLOC(already freed pointer,8)" : "FREE(NULL)"))));
 }
+#if TRACKED
+/* history: the tracker's other tables (pixmaps, GCs) have been through 40 additions and 35 removals before the malloc table is used;
+ * anything the record-set code keeps outside a record set (capacity, cursor, cache) has been written by a sibling table */
+static void sibling_tables_prelude(void)
+{
+    static int done; if (done) return; done = 1;
+    for (unsigned long k = 1; k <= 40; k++) memrec_add_var(&pixmap_rec, "pix.c", k, (void *) (0x1000 + 16 * k), 4 * k);
+    for (unsigned long k = 1; k <= 35; k++) memrec_rem_var(&pixmap_rec, "pm", "pix.c", k, (void *) (0x1000 + 16 * k));
+    for (unsigned long k = 1; k <= 5; k++) memrec_add_var(&gc_rec, "gc.c", k, (void *) (0x9000 + 16 * k), sizeof(void *));
+}
+#endif
 static void *fresh(void)
 {
+#if TRACKED
+    { unsigned lv = libast_debug_level; libast_debug_level = 0; sibling_tables_prelude(); libast_debug_level = lv; }
+#endif
     st_t *s = __real_calloc(1, sizeof *s);
     libast_debug_level = (unsigned) LEVEL;
     g_ndead = 0; g_realloc_mode = 0;
@@ -220,7 +234,7 @@ static const int MANY[] = { 126, 127, 128, 254, 255, 256, 257, 300, 1000, 66000 
 #else
 # define NMANY ((int) (sizeof MANY / sizeof MANY[0]))
 #endif
-static void many_desc(uint64_t idx, void *ctx, char *b, size_t n) { (void) ctx; snprintf(b, n, "%d tracked MALLOC(16) blocks, REALLOC of the first/last/middle one, FREE (of all; of 600 when n > 4000) in %s order", MANY[idx / 3], idx % 3 == 0 ? "ascending" : (idx % 3 == 1 ? "descending" : "odd-then-even")); }
+static void many_desc(uint64_t idx, void *ctx, char *b, size_t n) { (void) ctx; if (idx >= (uint64_t) NMANY * 3) { snprintf(b, n, "MALLOC, REALLOC, CALLOC of a block above 4 GiB (never touched)"); return; } snprintf(b, n, "%d tracked MALLOC(16) blocks, REALLOC of the first/last/middle one, FREE (of all; of 600 when n > 4000) in %s order", MANY[idx / 3], idx % 3 == 0 ? "ascending" : (idx % 3 == 1 ? "descending" : "odd-then-even")); }
 static int many_check(void **pp, size_t *sz, int n, const char *shape, const char *when)
 {
     size_t live = 0; for (int i = 0; i < n; i++) if (pp[i]) live++;
@@ -234,10 +248,34 @@ static int many_check(void **pp, size_t *sz, int n, const char *shape, const cha
     }
     return 1;
 }
+#if !(defined(__SANITIZE_ADDRESS__) || (defined(__has_feature) && __has_feature(address_sanitizer)))
+/* a block of more than 4 GiB (never touched, so never resident): the record holds the size that was asked for */
+static void hugeblock_case(void)
+{
+    mc_set_shape("block above 4 GiB");
+    libast_debug_level = 5; malloc_rec.cnt = 0;
+    size_t sz = ((size_t) 1 << 32) + 32;
+    void *p = MALLOC(sz);
+    if (p) {
+        if (malloc_rec.cnt != 1 || malloc_rec.ptrs[0].ptr != p || malloc_rec.ptrs[0].size != sz) FAIL("spifmem", "model:record-size", "block above 4 GiB", "MALLOC(2^32+32): %lu records, recorded size %lu", (unsigned long) malloc_rec.cnt, malloc_rec.cnt ? (unsigned long) malloc_rec.ptrs[0].size : 0UL);
+        p = REALLOC(p, sz + 4096);
+        if (p && (malloc_rec.cnt != 1 || malloc_rec.ptrs[0].ptr != p || malloc_rec.ptrs[0].size != sz + 4096)) FAIL("spifmem", "model:record-size", "block above 4 GiB", "REALLOC to 2^32+4128: recorded size %lu", malloc_rec.cnt ? (unsigned long) malloc_rec.ptrs[0].size : 0UL);
+        FREE(p);
+        if (malloc_rec.cnt != 0) FAIL("spifmem", "model:record-count", "block above 4 GiB", "the table holds %lu records after the block was freed", (unsigned long) malloc_rec.cnt);
+    }
+    { void *q = CALLOC(char, sz); if (q) { if (malloc_rec.cnt != 1 || malloc_rec.ptrs[0].size != sz) FAIL("spifmem", "model:record-size", "block above 4 GiB", "CALLOC of 2^32+32 bytes: recorded size %lu", malloc_rec.cnt ? (unsigned long) malloc_rec.ptrs[0].size : 0UL); FREE(q); } }
+    malloc_rec.cnt = 0; libast_debug_level = 0;
+    mc_nontrivial();
+}
+#endif
 static void many_case(uint64_t idx, void *ctx)
 {
+#if !(defined(__SANITIZE_ADDRESS__) || (defined(__has_feature) && __has_feature(address_sanitizer)))
+    if (idx == (uint64_t) NMANY * 3) { (void) ctx; sibling_tables_prelude(); hugeblock_case(); return; }
+#endif
     int n = MANY[idx / 3], order = (int) (idx % 3); (void) ctx;
     char shape[48]; snprintf(shape, sizeof shape, "%s live blocks", n < 256 ? "fewer than 256" : (n < 65536 ? "256..65535" : "65536 or more")); mc_set_shape(shape);
+    libast_debug_level = 0; sibling_tables_prelude();
     libast_debug_level = 5; malloc_rec.cnt = 0; g_ndead = 0; g_realloc_mode = 0;
     void **pp = __real_calloc((size_t) n, sizeof *pp); size_t *sz = __real_calloc((size_t) n, sizeof *sz);
     for (int i = 0; i < n; i++) { pp[i] = MALLOC(16); sz[i] = 16; if (!pp[i]) { FAIL("spifmem", "model:null", shape, "MALLOC returned NULL"); goto out; } }
@@ -276,7 +314,11 @@ int main(int argc, char **argv)
     }
     libast_debug_level = 0;
 #if TRACKED
+#if defined(__SANITIZE_ADDRESS__) || (defined(__has_feature) && __has_feature(address_sanitizer))
     mc_e2_level("many_blocks", 66000, (uint64_t) NMANY * 3, many_case, many_desc, NULL);
+#else
+    mc_e2_level("many_blocks", 66000, (uint64_t) NMANY * 3 + 1, many_case, many_desc, NULL);
+#endif
 #endif
     return mc_finish();
 }
